@@ -1379,7 +1379,10 @@ int ov_raw_seek(OggVorbis_File *vf,ogg_int64_t pos){
           if(ogg_page_bos(&og)){
             /* we traversed */
             _decode_clear(vf); /* clear out stream state */
-            ogg_stream_clear(&work_os);
+            ogg_stream_reset(&work_os); /* it is re-keyed to the next
+                                           link's serial number below;
+                                           clearing it would leave it
+                                           unusable */
           } /* else, do nothing; next loop will scoop another page */
         }
       }
